@@ -8,7 +8,7 @@ import numpy as np
 from toqito.channels import partial_transpose, realignment
 
 from .. import gen
-from ..exact import NotExact, call, split_int
+from ..exact import NotExact, call, present, split_int
 
 RULE = ("configurations (row/column dims, subset S and its form, dim argument form, dtype, numeric or cvxpy Variable) from the seeded generator, "
         "all subsets for small dims (thorough); inputs arange-labelled so equality of outputs is equality of index maps; non-trivial = some "
@@ -56,7 +56,7 @@ def check_pt(ctx, rd, cd, sys_arg, dim_form, dtype, variable=False):
         if impl[0] == "ok":
             impl = ("ok", np.asarray(impl[1].value))
     else:
-        impl = call(partial_transpose, X, sys_arg, dim_py)
+        impl = call(partial_transpose, present(ctx.rng, X, allow_dtype=False), sys_arg, dim_py)
     desc = {"fn": "partial_transpose", "rd": rd, "cd": cd, "sys": sys_js, "sys_form": type(sys_arg).__name__, "dim_form": dim_form, "dtype": dtype, "variable": variable}
     sl = [sys_js] if isinstance(sys_js, int) else ([1] if sys_js is None else list(sys_js))
     n = len(rd)
@@ -103,7 +103,7 @@ def check_realign(ctx, r0, r1, c0, c1, dim_form, dtype):
         dim_py = int(r0)
     else:
         dim_py = None
-    impl = call(realignment, X, dim_py)
+    impl = call(realignment, present(ctx.rng, X, allow_dtype=False), dim_py)
     desc = {"fn": "realignment", "rdim": [r0, r1], "cdim": [c0, c1], "dim_form": dim_form, "dtype": dtype}
     ctx.case(desc, min(r0, r1, c0, c1) > 1, f"realign/{dim_form}/{'square' if (r0, r1) == (c0, c1) else 'rect'}")
     model = ctx.lean().ask("realignment", {"data": list(range(R * C)), "rdim": [r0, r1], "cdim": [c0, c1]})
